@@ -227,12 +227,14 @@ func (c *Conn) clientHandshake(ctx context.Context) (err error) {
 				return readErr
 			}
 
+			resend := false
 			switch m := msg.(type) {
 			case *helloVerifyRequestMsg:
 				// 检查是否已设置 cookie（对端重传检测）
 				if len(hello.cookie) > 0 {
 					// 对端重传了 HelloVerifyRequest，我们重传 ClientHello
 					c.hsState.Store(int32(stateSending))
+					resend = true
 					break
 				}
 
@@ -241,6 +243,7 @@ func (c *Conn) clientHandshake(ctx context.Context) (err error) {
 				hello.raw = nil // 强制重新 marshaling
 				c.handBuf.Reset()
 				c.hsState.Store(int32(stateSending))
+				resend = true
 				break
 
 			case *serverHelloMsg:
@@ -255,7 +258,9 @@ func (c *Conn) clientHandshake(ctx context.Context) (err error) {
 				return unexpectedMessageError(serverHello, msg)
 			}
 
-			if serverHello != nil {
+			if serverHello != nil || resend {
+				// resend: 立即（重）发 ClientHello，而不是继续读到超时
+				// （switch 内的 break 只跳出 switch，不会跳出读循环）
 				break
 			}
 		}
